@@ -132,6 +132,76 @@ func ScannerHelpers(w *World, rel string) *report.RuleResult {
 		ids := st[tk+".ID"]
 		res.Check(len(ids) == 1 && (strings.HasPrefix(ids[0], "phi(") || ids[0] == "local" || strings.Contains(ids[0], "tok")), "Lex/ID", w.Pos(fn.Pos()), w.Name(fn), "the token id is the value of tok", fmt.Sprintf("token id assigned from %v", ids))
 	}
+	// every list stored into a token's FreeFloating field is the token's own list extended, or a
+	// list allocated by this call: a window of storage shared between tokens lets the trivia of one
+	// token overwrite another's
+	for _, fn := range w.InPkgs(rel) {
+		for _, b := range fn.Blocks {
+			for _, in := range b.Instrs {
+				st, ok := in.(*ssa.Store)
+				if !ok {
+					continue
+				}
+				fa, ok := st.Addr.(*ssa.FieldAddr)
+				if !ok || fieldName(fa.X.Type(), fa.Field) != "FreeFloating" {
+					continue
+				}
+				res.Count("ff-list-stores", 1)
+				seen := map[ssa.Value]bool{}
+				var own func(v ssa.Value) string
+				own = func(v ssa.Value) string {
+					if seen[v] {
+						return ""
+					}
+					seen[v] = true
+					switch x := v.(type) {
+					case *ssa.MakeSlice:
+						return ""
+					case *ssa.Const:
+						if x.IsNil() {
+							return ""
+						}
+					case *ssa.Phi:
+						for _, e := range x.Edges {
+							if why := own(e); why != "" {
+								return why
+							}
+						}
+						return ""
+					case *ssa.ChangeType:
+						return own(x.X)
+					case *ssa.UnOp:
+						if x.Op == token.MUL {
+							if fa2, ok := x.X.(*ssa.FieldAddr); ok && fieldName(fa2.X.Type(), fa2.Field) == "FreeFloating" && fa2.X == fa.X {
+								return "" // the token's own list
+							}
+						}
+					case *ssa.Call:
+						if bi, ok := x.Common().Value.(*ssa.Builtin); ok && bi.Name() == "append" {
+							return own(x.Common().Args[0])
+						}
+					case *ssa.Slice:
+						if _, isAlloc := x.X.(*ssa.Alloc); isAlloc {
+							return "" // make with constant bounds: an array allocated by this call
+						}
+						if x.Max != nil {
+							// a window with its capacity cut off: appends beyond it reallocate instead of running
+							// into a neighbour (that the windows themselves are disjoint is not decided here)
+							return ""
+						}
+						return "a sub-slice (without a capacity bound) of " + Expr(x.X) + ", storage that outlives the call"
+					}
+					return Expr(v) + " (not allocated by this call)"
+				}
+				key := strings.TrimPrefix(w.Name(fn), rel+".") + "/ff-list"
+				if why := own(st.Val); why == "" {
+					res.OK(key, w.Pos(st.Pos()), w.Name(fn), "FreeFloating is assigned the token's own list extended, or a list allocated by this call")
+				} else {
+					res.Bad(key, w.Pos(st.Pos()), w.Name(fn), "FreeFloating is assigned "+why+": appending to one token's list can overwrite what was appended to another's")
+				}
+			}
+		}
+	}
 	// who writes pe / data
 	for _, fn := range w.InPkgs(rel) {
 		if w.Name(fn) == rel+".NewLexer" {
